@@ -142,6 +142,7 @@ type zzEnv struct {
 	attKey  string
 	vic     string
 	tokens  map[string]string // token -> path (relative to sandbox) of the file holding it
+	used    map[string]bool   // source names under which earlier requests of the attacker were accepted (their work may finish later)
 }
 
 func (e *zzEnv) do(r *zzReq) (status int, body []byte) {
@@ -374,6 +375,16 @@ func TestZZVerif(t *testing.T) {
 	}
 	seedFile(env.att, env.attKey, "own/file1.dat")
 	seedFile(env.vic, vicKey, "secret/plan.dat")
+	// the receiver validates, logs and moves after it has answered: wait until the
+	// seeded files have arrived in the final directory (however loaded the machine is)
+	for k := 0; k < 600; k++ {
+		_, e1 := os.Stat(filepath.Join(env.recv, "final", env.att, "own", "file1.dat"))
+		_, e2 := os.Stat(filepath.Join(env.recv, "final", env.vic, "secret", "plan.dat"))
+		if e1 == nil && e2 == nil {
+			break
+		}
+		time.Sleep(50 * time.Millisecond)
+	}
 	time.Sleep(300 * time.Millisecond)
 	for _, s := range []string{env.att, env.vic} {
 		p := filepath.Join(env.recv, "serve", s, "pub", "note.txt")
@@ -519,8 +530,25 @@ func zzC14(e *zzEnv, rng *rand.Rand, n int, variant int) {
 			if e.allowed(rel, e.att) || (st != 403 && st != 400 && asSource != "" && e.allowed(rel, asSource)) {
 				continue
 			}
+			// work of an earlier accepted request (validation, log, move finish after the
+			// answer, arbitrarily late on a loaded machine) under the source name it used
+			late := false
+			for src := range e.used {
+				if src != e.vic && e.allowed(rel, src) {
+					late = true
+				}
+			}
+			if late {
+				continue
+			}
 			e.viol(i, "changes-confined", "escape/"+field, fmt.Sprintf("%s %s (source %q, sep %q, meta %s) answered %d and %s, which is outside the directories of the source it was authorised for", r.Method, r.URL, asSource, r.Headers["X-STS-Sep"], r.Meta, st, d), r)
 			break
+		}
+		if st != 403 && st != 400 && st > 0 && asSource != "" {
+			if e.used == nil {
+				e.used = map[string]bool{}
+			}
+			e.used[asSource] = true
 		}
 		if lk := e.leak(body, asSource); lk != "" {
 			e.viol(i, "no-disclosure", "disclosure/"+field, fmt.Sprintf("%s %s as source %q answered %d with the content of %s", r.Method, r.URL, asSource, st, lk), r)
